@@ -136,13 +136,14 @@ def run(out):
     out.assumptions = ['not judged (statement silent): get_open_tag inside a closing tag; select_item_css next strictly inside a declaration '
                        'head; declarations not terminated by a semicolon for select_item_css',
                        'a value with a semicolon inside parentheses is known finding F16 (one small instance)']
-    hin = [('html-exhaustive', dict(constants={'MaxSeg': 3 if quick else 4, 'MaxDepth': 3, 'SegIdx': set(range(1, 32)), 'XmlModes': {False}, **NOGEN})),
+    hin = [('html-exhaustive', dict(constants={'MaxSeg': 3, 'MaxDepth': 3, 'SegIdx': set(range(1, 32)), 'XmlModes': {False}, **NOGEN})),
            ('html-class-and-attributes', dict(constants={'MaxSeg': 4 if quick else 6, 'MaxDepth': 2, 'SegIdx': {2, 3, 5, 20, 21, 22, 29, 30, 31} if quick else {3, 5, 20, 21, 22, 29, 30, 31},
                                                          'XmlModes': {False}, **NOGEN})),
            ('html-simulated', dict(constants={'MaxSeg': 14 if quick else 25, 'MaxDepth': 6, 'SegIdx': set(range(1, 32)), 'XmlModes': {False}, **NOGEN},
                                    simulate=3 if quick else 60, depth=15 if quick else 26, seed=out.seed))]
-    base = dict(MaxDepth=3, Fillers={" ", "/* {;:} */", "NL", "C2"}, Loose=True, SemiInParens=False, NoSemi=False)
-    cin = [('css-exhaustive', dict(constants=dict(base, MaxSeg=3 if quick else 4, SelIdx={1, 2, 3, 5} if quick else {1, 2, 3}, ValIdx={1, 2, 3, 4}, NameIdx={1, 2}))),
+    base = dict(MaxDepth=3, Fillers={" ", "/* {;:} */", "NL", "C2", "C4", "CRLF"}, Loose=True, SemiInParens=False, NoSemi=False)
+    cin4 = ('css-4', dict(constants=dict(base, MaxSeg=4, SelIdx={1, 2}, ValIdx={1, 2, 4}, NameIdx={1}, Fillers={" ", "C2", "CRLF"})))
+    cin = [('css-exhaustive', dict(constants=dict(base, MaxSeg=3, SelIdx={1, 2, 3, 5}, ValIdx={1, 2, 3, 4}, NameIdx={1, 2}))),
            ('css-all-shapes', dict(constants=dict(base, MaxSeg=2 if quick else 3, SelIdx={1, 2, 3, 4, 5, 6, 7, 8}, ValIdx={1, 2, 3, 4, 5, 6, 7, 8, 9, 10, 11, 12}, NameIdx={1, 2, 3, 4}))),
            ('css-nesting', dict(constants=dict(base, MaxSeg=5 if quick else 6, SelIdx={1, 2}, ValIdx={4}, NameIdx={1}, Fillers={" "}, Loose=False))),
            ('css-deep-nesting', dict(constants=dict(base, MaxSeg=8 if quick else 9, SelIdx={1}, ValIdx={1}, NameIdx={1}, Fillers=set(), Loose=False, NoSemi=True))),
@@ -151,6 +152,8 @@ def run(out):
            ('css-simulated', dict(constants=dict(base, MaxSeg=12 if quick else 20, MaxDepth=4, SelIdx={1, 2, 3, 4, 5, 6, 7, 8}, ValIdx={1, 2, 3, 4, 5, 6, 7, 8, 9, 10, 11, 12}, NameIdx={1, 2, 3, 4}),
                                   simulate=3 if quick else 60, depth=13 if quick else 21, seed=out.seed))]
     nontrivial = 0
+    if not quick:
+        cin.insert(1, cin4)
     for module, cfg, insts, fn in (('HtmlDoc', 'HtmlActions', hin, _html_chunk), ('CssDoc', 'CssActions', cin, _css_chunk)):
         for name, kw in insts:
             r = common.run_tlc(module, cfg=cfg, timeout=3000, heap='16g', **kw)
